@@ -30,7 +30,9 @@ STATE = {
 }
 
 
-def arm(workers, sched_seed, fork_fault=False, stats=None, clock=None):
+def arm(workers, sched_seed, fork_fault=False, stats=None, clock=None,
+        on_item=None):
+    STATE['on_item'] = on_item
     STATE['workers'] = workers
     STATE['rng'] = random.Random(sched_seed)
     STATE['fork_fault'] = fork_fault
@@ -333,6 +335,10 @@ class Pool:
                     raise val
                 for v in val:
                     yield v
+                    # the consumer has taken this result: a possible crash
+                    # instant between two I/O events
+                    if STATE.get('on_item') is not None:
+                        STATE['on_item']('pool_item')
 
         return gen()
 
